@@ -1,7 +1,7 @@
 (* Properties_C08.v — LDA predicts the arg-max discriminant and is invariant to affine re-coding. *)
 From Coq Require Import Floats.
 From mathcomp Require Import all_ssreflect all_algebra.
-From LS Require Import NumOps RcfOps F64Ops Kernels Pca Lda LdaSpec.
+From LS Require Import NumOps RcfOps F64Ops Kernels Pca Lda LdaSpec LdaSpec2.
 Set Implicit Arguments. Unset Strict Implicit. Unset Printing Implicit Defensive.
 Import Order.TTheory GRing.Theory Num.Theory.
 Local Open Scope ring_scope.
@@ -17,6 +17,24 @@ Theorem C08_affine_invariance (A C : 'M[R]_m) (c mk mj x : 'cV[R]_m) : A \in uni
   score C' (A *m mk + c) (A *m x + c) - score C' (A *m mj + c) (A *m x + c) = score C mk x - score C mj x.
 Proof. exact: affine_invariance. Qed.
 End Invariance.
+
+(* the hypothesis of the invariance theorem is what the data deliver: under x -> A x + c of every
+   object the class means map the same way, the pooled within-class scatter (any class weights)
+   becomes A Sw A^T and its inverse A^-T Sw^-1 A^-1; so discriminant differences computed entirely
+   from the transformed data equal those computed from the original data *)
+Section FromData.
+Variable R : rcfType.
+Variables (m : nat) (I G : finType) (cls : I -> G) (w : G -> R).
+Theorem C08_scatter_equivariant (A : 'M[R]_m) (c : 'cV[R]_m) (x : I -> 'cV[R]_m) : (forall g, cnt R cls g != 0) ->
+  scatter cls w (amap A c x) = A *m scatter cls w x *m A^T.
+Proof. exact: scatter_affine. Qed.
+Theorem C08_affine_invariance_from_data (A : 'M[R]_m) (c : 'cV[R]_m) (x : I -> 'cV[R]_m) (k j : G) (z : 'cV[R]_m) :
+  (forall g, cnt R cls g != 0) -> A \in unitmx -> scatter cls w x \in unitmx ->
+  let x' := amap A c x in
+  score (invmx (scatter cls w x')) (cmean cls x' k) (A *m z + c) - score (invmx (scatter cls w x')) (cmean cls x' j) (A *m z + c)
+  = score (invmx (scatter cls w x)) (cmean cls x k) z - score (invmx (scatter cls w x)) (cmean cls x j) z.
+Proof. exact: lda_affine_invariance. Qed.
+End FromData.
 
 Section Argmax.
 Variable R : rcfType.
@@ -43,4 +61,6 @@ Example C08_f64_one_based :
 Proof. by vm_compute. Qed.
 
 Print Assumptions C08_affine_invariance.
+Print Assumptions C08_scatter_equivariant.
+Print Assumptions C08_affine_invariance_from_data.
 Print Assumptions C08_prediction_is_argmax.
